@@ -240,6 +240,31 @@ def molecule_item(mol):
     return acc.result()
 
 
+def history_item(pair):
+    """sides with the same molecules in different multiplicities normalised one after the
+    other in one process; afterwards every spelling variant of the plain two-molecule side
+    must still normalise like the side itself and keep its molecules"""
+    from synrbl.SynUtils.chem_utils import normalize_smiles
+
+    a, b = pair
+    fails = []
+    rhs = ">>CC=O"
+    seq = [a + "." + a + "." + b + rhs, a + "." + b + "." + b + rhs, a + "." + b + rhs, b + "." + a + rhs,
+           a + "." + a + rhs, a + rhs]
+    for x in seq:
+        nx = normalize_smiles(x)
+        if oracle.mols(nx.split(">>")[0], stereo=False) != oracle.mols(x.split(">>")[0], stereo=False):
+            fails.append({"x": x, "v": nx, "key": ["history", "molecules-changed"],
+                          "observed": {"normalize(x)": nx}, "expected": "the molecules of x"})
+        for sp in universe.rooted_spellings(a)[1:3] + universe.rooted_spellings(b)[1:2]:
+            v = x.replace(a, sp, 1) if sp in universe.rooted_spellings(a) else x.replace(b, sp, 1)
+            if v != x and normalize_smiles(v) != nx:
+                fails.append({"x": x, "v": v, "key": ["history", "variant-differs"],
+                              "observed": {"normalize(x)": nx, "normalize(variant)": normalize_smiles(v)},
+                              "expected": "equal normal forms"})
+    return {"n": len(seq), "fails": fails[:4]}
+
+
 def sym_reactions():
     lefts = list(universe.multisets(SYM_LEFT, 2))
     return [".".join(l) + ">>" + r for l in lefts for r in SYM_RIGHT]
@@ -339,6 +364,16 @@ def run(tier, seed):
             res.add(Violation(g["sub"], case, e["observed"], e["expected"], g["key"],
                               "{} vs {}: {} ({} failing case(s) in this group)".format(
                                   e["x"], e["v"], e["observed"], g["count"])))
+    import itertools as _it
+
+    hpairs = [(a, b) for a, b in _it.permutations(A17[:9], 2)]
+    rh = pmap("checks.c17:history_item", hpairs, chunk=6, seed=seed)
+    for p, r in zip(hpairs, rh):
+        for f in r["fails"][:1]:
+            res.add(Violation("history", {"pair": list(p)}, f["observed"], f["expected"], f["key"],
+                              "after normalising sides with {} and {} in other multiplicities: {} vs {}: {}".format(
+                                  p[0], p[1], f["x"], f["v"], f["observed"])))
+    counts["histories"] = {"evaluations": sum(r["n"] for r in rh), "nontrivial": len(hpairs)}
     res.coverage = {
         "evaluations": sum(c["evaluations"] for c in counts.values()),
         "distinct_nontrivial": counts["reactions"]["nontrivial"]
@@ -380,6 +415,9 @@ def run(tier, seed):
 
 def replay(v):
     out = []
+    if v.sub == "history":
+        r = history_item(tuple(v.case["pair"]))
+        return [Violation("history", v.case, f["observed"], f["expected"], f["key"], "history") for f in r["fails"] if f["key"] == v.key][:1]
     if v.sub == "symmetry":
         fails = judge_pair(v.case["a"], v.case["b"])
         case = v.case
